@@ -162,9 +162,10 @@ Lemma fiber_check_Some p idem cl0 down c frs r :
              /\ (forall t, In t (conn_fail_targets tr) -> In t down).
 Proof.
   unfold fiber_check. destruct (fiber p idem cl0 (c_plan c) (c_outs c)) as [tr r'] eqn:E.
-  destruct (match_frames (c_free c) (attempts tr) frs && seq_ok frs
+  destruct (match_frames (c_free c) (attempts tr) frs && seq_ok frs && shards_ok down frs
             && forallb (fun t => memN t down) (conn_fail_targets tr)) eqn:B; [|discriminate].
-  intros H. injection H as <-. apply andb_true_iff in B as [B B3]. apply andb_true_iff in B as [B1 B2].
+  intros H. injection H as <-. apply andb_true_iff in B as [B B3]. apply andb_true_iff in B as [B _].
+  apply andb_true_iff in B as [B1 B2].
   exists tr. repeat split; try assumption.
   intros t Ht. rewrite forallb_forall in B3. apply memN_In. auto.
 Qed.
@@ -709,4 +710,61 @@ Lemma single_no_more p idem cl0 nodes down c frs tret o co :
 Proof.
   intros H. destruct (single_sound _ _ _ _ _ _ _ _ _ _ H) as [tr [r [Hf [Ho _]]]].
   apply fiber_Exec in Hf. exact (Exec_frames_follow _ _ _ _ _ _ _ _ _ Hf Ho).
+Qed.
+
+(* a request that ended with the client-side timeout *)
+Lemma timeout_sound p idem spec cl0 nodes down cs assign frs t0 tmo tret margin :
+  check_timeout p idem spec cl0 nodes down cs assign frs t0 tmo tret margin = true ->
+  let max := match gate_open idem spec with Some m => m | None => 0%nat end in
+  (1 <= List.length cs <= 1 + max)%nat
+  /\ NoDup (concat (map c_plan cs)) /\ incl (concat (map c_plan cs)) nodes
+  /\ (forall i c, nth_error cs i = Some c ->
+       exists tr r, fiber p idem cl0 (c_plan c) (c_outs c) = (tr, r)
+                    /\ match_frames (c_free c) (attempts tr) (sub_frames i assign frs) = true
+                    /\ seq_ok (sub_frames i assign frs) = true
+                    /\ (forall t, In t (conn_fail_targets tr) -> In t down))
+  /\ (List.length frs <= frame_bound p (1 + max) (List.length nodes))%nat
+  /\ t0 + tmo <= tret
+  /\ (forall f, In f frs -> f_arr f <= tret + margin).
+Proof.
+  unfold check_timeout. intros H. cbv zeta.
+  apply andb_true_iff in H as [H H3]. apply andb_true_iff in H as [H1 H2].
+  destruct (multi_sound _ _ _ _ _ _ _ _ _ H1) as [Ha [Hb [Hc Hd]]].
+  split; [assumption|]. split; [assumption|]. split; [assumption|]. split; [assumption|].
+  split; [eapply multi_bound; eassumption|]. split; [now apply N.leb_le|].
+  intros f Hf. rewrite forallb_forall in H3. apply N.leb_le. auto.
+Qed.
+
+(* same-target retries stay on the shard *)
+Lemma fiber_check_shards p idem cl0 down c frs r :
+  fiber_check p idem cl0 down c frs = Some r -> shards_ok down frs = true.
+Proof.
+  unfold fiber_check. destruct (fiber p idem cl0 (c_plan c) (c_outs c)) as [tr r'].
+  destruct (match_frames (c_free c) (attempts tr) frs && seq_ok frs && shards_ok down frs
+            && forallb (fun t => memN t down) (conn_fail_targets tr)) eqn:B; [|discriminate].
+  intros _. apply andb_true_iff in B as [B _]. now apply andb_true_iff in B as [_ B].
+Qed.
+
+Lemma shards_ok_pair down pre f g post :
+  shards_ok down (pre ++ f :: g :: post) = true -> f_node g = f_node f -> ~ In (f_node f) down ->
+  f_shard g = f_shard f.
+Proof.
+  induction pre as [|a pre IH]; cbn [app shards_ok].
+  - intros H Hn Hd. apply andb_true_iff in H as [H _].
+    apply orb_true_iff in H as [H|H]; [|apply memN_In in H; contradiction].
+    apply orb_true_iff in H as [H|H]; [|now apply N.eqb_eq].
+    rewrite Hn, N.eqb_refl in H. discriminate.
+  - destruct (pre ++ f :: g :: post) eqn:E; [destruct pre; discriminate|].
+    intros H. apply andb_true_iff in H as [_ H]. auto.
+Qed.
+
+Lemma single_shards p idem cl0 nodes down c frs tret o co :
+  check_single p idem cl0 nodes down c frs tret o co = true ->
+  forall pre f g post, frs = pre ++ f :: g :: post -> f_node g = f_node f -> ~ In (f_node f) down ->
+  f_shard g = f_shard f.
+Proof.
+  unfold check_single. intros H pre f g post -> Hn Hd.
+  apply andb_true_iff in H as [_ H].
+  destruct (fiber_check p idem cl0 down c (pre ++ f :: g :: post)) as [r|] eqn:E; [|discriminate].
+  exact (shards_ok_pair _ _ _ _ _ (fiber_check_shards _ _ _ _ _ _ _ E) Hn Hd).
 Qed.
